@@ -349,29 +349,26 @@ def _entry_bytes(mode, sep, name, nul, idlen, k):
 
 def parse_tree_texts(sha_len, thorough):
     """All token strings of <= 3 entries in which at most one entry is arbitrary (the others are
-    valid entries), plus all pairs of entries from a reduced token set."""
-    seen = set()
+    valid entries), plus all pairs of entries from a reduced token set.  (A few texts occur twice;
+    they are simply evaluated twice.)"""
     arb = [(m, s, n, z, l) for m in MODES for s in (True, False) for n in NAMES for z in (True, False) for l in IDLENS]
     val = [_entry_bytes(m, True, n, True, sha_len, 5 + i) for i, (m, n) in enumerate(VALID)]
     ctxs = [((), ())]
     ctxs += [((v,), ()) for v in val] + [((), (v,)) for v in val]
     ctxs += [((v,), (w,)) for v in val for w in val] + [((v, w), ()) for v in val for w in val] + [((), (v, w)) for v in val for w in val]
     for pre, post in ctxs:
+        pre, post = b"".join(pre), b"".join(post)
         for a in arb:
-            t = b"".join(pre) + _entry_bytes(*a, 0) + b"".join(post)
-            if t not in seen:
-                seen.add(t)
-                yield t
+            yield pre + _entry_bytes(*a, 0) + post
     names = (b"a", b"") if thorough else (b"a",)
     seps = (True, False) if thorough else (True,)
-    red = [(m, s, n, z, l) for m in MODES for s in seps for n in names for z in (True, False) for l in (sha_len - 1, sha_len, sha_len + 1)]
-    for a in red:
-        ea = _entry_bytes(*a, 0)
-        for b in red:
-            t = ea + _entry_bytes(*b, 1)
-            if t not in seen:
-                seen.add(t)
-                yield t
+    red = [_entry_bytes(m, s, n, z, l, 0) for m in MODES for s in seps for n in names for z in (True, False)
+           for l in (sha_len - 1, sha_len, sha_len + 1)]
+    red2 = [_entry_bytes(m, s, n, z, l, 1) for m in MODES for s in seps for n in names for z in (True, False)
+            for l in (sha_len - 1, sha_len, sha_len + 1)]
+    for ea in red:
+        for eb in red2:
+            yield ea + eb
 
 
 RAW_ALPHA_Q = [b"1", b"0", b" ", b"\0", b"a"]
@@ -780,6 +777,23 @@ FAMILIES = {
 # =========================================================================== tasks
 
 
+def gen_parse_tree(sha_len, strict, thorough):
+    for t in parse_tree_texts(sha_len, thorough):
+        yield (t, sha_len, strict)
+    for t in parse_tree_raw(thorough):
+        yield (t, sha_len, strict)
+
+
+GENS = {
+    "parse_tree": gen_parse_tree,
+    "bisect_find_sha": lambda thorough: bisect_inputs(thorough),
+    "sorted_tree_items": lambda n: sti_inputs(n),
+    "_count_blocks": lambda thorough: count_blocks_inputs(thorough),
+    "create_delta": lambda n: ((b, t, 0) for b, t in ds.small_pairs(n)),
+    "repo_diff": lambda thorough: repo_diff_inputs(thorough),
+}
+
+
 def work(task):
     """Harness failures are carried home in the Acc and raised by run() (raising inside a pool worker
     would leave the other workers of the pool hanging)."""
@@ -800,13 +814,17 @@ def _work(acc, task):
     if kind == "list":  # explicit list of inputs of one family
         _, _, fn, inputs = task
         FAMILIES[fn](acc, inputs)
+    elif kind == "gen":  # every nparts-th element of a generated space (built here, not in the parent)
+        _, _, fn, args, part, nparts = task
+        inputs = [x for k, x in enumerate(GENS[fn](*args)) if k % nparts == part]
+        FAMILIES[fn](acc, inputs)
     elif kind == "hostile":
         _, _, prefix, max_len = task
         inputs = [(b, s, 0) for s in ds.hostile_strings(prefix, max_len) for b in ds.HOSTILE_BASES]
         fam_apply_delta(acc, inputs)
     elif kind == "scopy":
-        _, _, cmd, thorough = task
-        fam_apply_delta(acc, [(b, d, 0) for _, b, d in ds.structured_copy([cmd], ds.copy_values(thorough))])
+        _, _, cmd, thorough, part, nparts = task
+        fam_apply_delta(acc, [(b, d, 0) for _, b, d in ds.structured_copy([cmd], ds.copy_values(thorough))[part::nparts]])
     elif kind == "merge":
         _, _, descs_a, max_entries, paths = task
         allb = tree_descs(max_entries)
@@ -825,6 +843,13 @@ def _build_tasks(ctx, release, q):
             tasks.append(("list", release, fn, part))
         return len(inputs)
 
+    def generated(fn, args, per_task):
+        n = sum(1 for _ in GENS[fn](*args))
+        nparts = max(1, min(n, -(-n // per_task)))
+        for part in range(nparts):
+            tasks.append(("gen", release, fn, args, part, nparts))
+        return n
+
     counts = {}
     # slow single items first
     bp = ds.boundary_pairs(not q)
@@ -833,18 +858,15 @@ def _build_tasks(ctx, release, q):
         tasks.append(("list", release, "create_delta", [(b, t, 0)]))
     counts["create_delta"] = len(heavy)
     nheavy = len(tasks)
-    counts["create_delta"] += chunked("create_delta", [(b, t, 0) for b, t in ds.small_pairs(4 if q else 5)], J * 2)
-    # parse_tree
-    pt = []
+    counts["create_delta"] += generated("create_delta", (4 if q else 5,), 4000)
+    counts["parse_tree"] = 0
     for sha_len in (20, 32):
         for strict in (False, True):
-            pt += [(t, sha_len, strict) for t in parse_tree_texts(sha_len, not q)]
-            pt += [(t, sha_len, strict) for t in parse_tree_raw(not q)]
-    counts["parse_tree"] = chunked("parse_tree", pt, J * 4)
-    counts["sorted_tree_items"] = chunked("sorted_tree_items", sti_inputs(3 if q else 4), J)
-    counts["bisect_find_sha"] = chunked("bisect_find_sha", bisect_inputs(not q), J * 2)
+            counts["parse_tree"] += generated("parse_tree", (sha_len, strict, not q), 20000)
+    counts["sorted_tree_items"] = generated("sorted_tree_items", (3 if q else 4,), 5000)
+    counts["bisect_find_sha"] = generated("bisect_find_sha", (not q,), 20000)
     counts["_is_tree"] = chunked("_is_tree", [(m,) for m in IS_TREE_INPUTS], 1)
-    counts["_count_blocks"] = chunked("_count_blocks", count_blocks_inputs(not q), J * 2)
+    counts["_count_blocks"] = generated("_count_blocks", (not q,), 5000)
     # _merge_entries: all ordered pairs of trees
     me = 2 if q else 3
     descs = tree_descs(me)
@@ -861,14 +883,16 @@ def _build_tasks(ctx, release, q):
     counts["apply_delta"] = ds.hostile_count(hl) * len(ds.HOSTILE_BASES)
     st = [(b, d, f) for _, b, d in ds.structured_small() for f in (0, 1)]
     counts["apply_delta"] += chunked("apply_delta", st, J)
-    for cmd in range(0x80, 0x100):
-        tasks.append(("scopy", release, cmd, not q))
     nvals = len(ds.copy_values(not q))
+    for cmd in range(0x80, 0x100):
+        nparts = max(1, 10 * nvals ** bin(cmd & 0x7F).count("1") // 40000)
+        for part in range(nparts):
+            tasks.append(("scopy", release, cmd, not q, part, nparts))
     counts["apply_delta"] += 2 * 5 * (1 + nvals) ** 7
     # repository level
     counts["repo_tree"] = chunked("repo_tree", repo_tree_inputs(3), J)
     counts["repo_parse"] = chunked("repo_parse", repo_parse_inputs(), J * 2)
-    counts["repo_diff"] = chunked("repo_diff", repo_diff_inputs(not q), J * 2)
+    counts["repo_diff"] = generated("repo_diff", (not q,), 500)
     counts["repo_pack"] = chunked("repo_pack", repo_pack_inputs(not q), J)
     return tasks[:nheavy] + ctx.order(tasks[nheavy:]), counts
 
